@@ -1,10 +1,11 @@
 import Proofs.Chain
 import Pegnet.Generated.Facts
 /-
-  C08 — Sync liveness. The full statement ("applying any block terminates successfully") is false
-  for the code as it is; the model reproduces the failing shapes, each is a proved witness here
-  and is replayed on the real daemon by the `malformed` / `dups` scenarios. Positive results are
-  `_partial`.
+  C08 — Sync liveness. Two defects found by this check were repaired in /repo (known-findings.jsonl:
+  the GradeS panic and the repeated-entry-hash wedge); the theorems below state the repaired
+  behaviour. The full statement ("applying ANY block succeeds") still does not hold in the legacy
+  eras (bank-era mixed batches, snapshot without rates before 2.0.2) — those shapes are recorded as
+  known findings and excluded by the `_partial` statements.
 -/
 namespace Pegnet.C08
 open Pegnet
@@ -14,8 +15,8 @@ open Pegnet
 theorem block_application_returns (P : Params) (n : Node) (b : Block) :
     ∃ n' r, applyBlock P n b = (n', r) := ⟨_, _, rfl⟩
 
-/-- witness 1: an SPR-chain entry with fewer than two external ids makes `GradeS` panic, at
-    every height (the glue indexes ExtIDs[1] before any validation) -/
+/-- a panic inside the staking grader library (outside the model: the harness reports it as the
+    oracle answer `.panic`) would fail the block at every height — GradeS runs before any era check -/
 theorem spr_short_extids_panics (P : Params) (c : DB) (b : Block) (avgs : TMap) (s : DB) (site : String)
     (hs : b.spr = .panic site) (h1 : b.height ≠ P.act.v204) (h2 : b.height ≠ P.act.v204Burn) :
     ∃ s', syncBlock P c b avgs s = .fail (.panic site) s' := by
@@ -30,22 +31,23 @@ theorem spr_short_extids_panics (P : Params) (c : DB) (b : Block) (avgs : TMap) 
   rw [hs]
   rfl
 
-/-- the model's glue decides "panic" exactly when some SPR entry has fewer than two external ids -/
-theorem spr_panic_iff (db : DB) (entries : List (Option Addr)) :
-    sprPass db entries = none ↔ ∃ e ∈ entries, e = none := by
-  unfold sprPass
-  constructor
-  · intro h
-    by_cases hany : entries.any (·.isNone) = true
-    · obtain ⟨e, he, hn⟩ := List.any_eq_true.1 hany
-      exact ⟨e, he, by cases e <;> simp_all⟩
-    · simp [hany] at h
-  · rintro ⟨e, he, rfl⟩
-    have : entries.any (·.isNone) = true := List.any_eq_true.2 ⟨none, he, rfl⟩
-    simp [this]
+/-- since the repair (known-findings.jsonl) the staking glue never panics: an entry with fewer than
+    two external ids is skipped, it is never handed to the grader -/
+theorem spr_glue_total (db : DB) (entries : List (Option Addr)) : (sprPass db entries).isSome = true := rfl
 
-/-- witness 2: the same entry hash twice in one transaction block, the first copy held (a
-    conversion): the second insert into the history table violates UNIQUE(entry_hash, height) -/
+theorem spr_short_entries_skipped (db : DB) (entries : List (Option Addr)) (idx : List Nat) (i : Nat)
+    (h : sprPass db entries = some idx) (hi : i ∈ idx) : ∃ a, (entries.zipIdx.any fun p => p.2 == i && p.1 == some a) = true := by
+  unfold sprPass at h
+  injection h with h
+  subst h
+  obtain ⟨p, hp, hpi⟩ := List.mem_map.1 hi
+  obtain ⟨hmem, hcond⟩ := List.mem_filter.1 hp
+  cases hpa : p.1 with
+  | none => rw [hpa] at hcond; cases hcond
+  | some a => exact ⟨a, List.any_eq_true.2 ⟨p, hmem, by simp [hpi, hpa]⟩⟩
+
+/-- since the repair a repeated entry hash is skipped instead of violating the history tables'
+    keys: the same conversion twice in one block is recorded (and held) once -/
 def wP : Params :=
   { act := ⟨0,0,0,0,0,0,0,0,0,0,100,100,200,200,300,310,400⟩, tickerMax := 63, tickerNames := ["PEG", "pUSD", "pEUR"], oneWaySet := [],
     snapshotRate := 144, perBlockHolders := 0, perBlockDevs := 0, bankBase := 0, avgPeriod := 8, avgRequired := 4,
@@ -54,20 +56,27 @@ def convEntry : TxEntry :=
   { hash := "e1", ts := 0, validRCD1 := true, validRCDe := true,
     parsed := some (1, [{ inAddr := "alice", inType := 2, inAmount := 5, transfers := [], conversion := 3 }]) }
 
-theorem duplicate_hash_same_block_wedges :
+theorem duplicate_hash_same_block_applies :
     (match applyTransactionBlock wP 5 "k" [convEntry, convEntry] {} with
-     | .fail (.sqlConstraint t) _ => t
-     | _ => "applied") = "pn_history_txbatch" := by decide
+     | .ok _ s => (s.histB.length, s.holding.length)
+     | .fail _ _ => (0, 0)) = (1, 1) := by decide
 
-/-- witness 3: an entry recorded but not executed (here: still pending) written again in a later
-    block violates the primary key of the per-transaction history table -/
-theorem resubmitted_pending_entry_wedges :
+/-- …and an entry that is still pending and is written again in a later block is skipped too -/
+theorem resubmitted_pending_entry_applies :
     (match applyTransactionBlock wP 5 "k" [convEntry] {} with
      | .ok _ s1 =>
         (match applyTransactionBlock wP 6 "k" [convEntry] s1 with
-         | .fail (.sqlConstraint t) _ => t
-         | _ => "applied")
-     | .fail _ _ => "first failed") = "pn_history_transaction" := by decide
+         | .ok _ s2 => (s2.histB.length, s2.holding.length)
+         | .fail _ _ => (0, 0))
+     | .fail _ _ => (0, 0)) = (1, 1) := by decide
+
+/-- an entry already recorded in the history is skipped entirely, whatever its status -/
+theorem recorded_entry_is_skipped (P : Params) (h : Nat) (keymr : String) (bo : Nat) (e : TxEntry) (s : DB)
+    (hx : s.isRecorded e.hash = true) : applyTxEntry P h keymr bo e s = .ok () s := by
+  unfold applyTxEntry
+  rw [M.bind_run]
+  simp only [M.get_run, hx, Bool.not_true, Bool.and_false, Bool.false_eq_true, if_false]
+  rfl
 
 /-- `block_total_partial`: a block with no tracked-chain content at an ordinary height (no
     one-time event, no snapshot / developer payout) always applies, on any ledger whose version
@@ -109,7 +118,9 @@ end Pegnet.C08
 
 #print axioms Pegnet.C08.block_application_returns
 #print axioms Pegnet.C08.spr_short_extids_panics
-#print axioms Pegnet.C08.spr_panic_iff
-#print axioms Pegnet.C08.duplicate_hash_same_block_wedges
-#print axioms Pegnet.C08.resubmitted_pending_entry_wedges
+#print axioms Pegnet.C08.spr_glue_total
+#print axioms Pegnet.C08.spr_short_entries_skipped
+#print axioms Pegnet.C08.duplicate_hash_same_block_applies
+#print axioms Pegnet.C08.resubmitted_pending_entry_applies
+#print axioms Pegnet.C08.recorded_entry_is_skipped
 #print axioms Pegnet.C08.empty_block_total
